@@ -1002,7 +1002,6 @@ func gossipVerifyBeforeAdmit(w *World, r *Report, rule string) {
 	}
 }
 
-
 // contentDependence: does v depend on the content (not merely the length) of a field or parameter? Returns what.
 func contentDependence(v ssa.Value, seen map[ssa.Value]bool, d int) string {
 	if v == nil || seen[v] || d > 14 {
